@@ -247,10 +247,16 @@ def sany_all():
 # ---------------------------------------------------------------- findings / replays / evidence
 
 def load_known():
+    out = []
     p = os.path.join(ROOT, "known_findings.json")
-    if not os.path.exists(p):
-        return []
-    return json.load(open(p))
+    if os.path.exists(p):
+        out += json.load(open(p))
+    d = os.path.join(ROOT, "known_findings.d")
+    if os.path.isdir(d):
+        for f in sorted(os.listdir(d)):
+            if f.endswith(".json"):
+                out += json.load(open(os.path.join(d, f)))
+    return out
 
 
 def sig_hash(obj):
@@ -260,8 +266,15 @@ def sig_hash(obj):
 class Check:
     """Bookkeeping for one run of one property's check."""
 
-    def __init__(self, pid, tier, level):
+    def __init__(self, pid, tier, level, replay=None):
+        """replay: path of a replay file written by an earlier run; the run then re-executes the tier with
+        the seed stored in the file and exits 1 iff the same signature fails again."""
         self.pid, self.tier, self.level = pid, tier, level
+        self.replay_sig = None
+        if replay:
+            rf = json.load(open(replay))
+            self.replay_sig = rf.get("signature")
+            os.environ["VERIF_SEED"] = str(rf.get("seed", 1))
         self.t0 = time.time()
         self.cov = {"samples": []}
         self.assumptions = []
@@ -308,6 +321,10 @@ class Check:
             json.dump(ev, f, indent=1)
         log(f"[{self.pid}] tier={self.tier} wall={ev['wall_s']}s violations={len(self.violations)} "
             f"known={cov['known_findings_hit']} coverage=" + json.dumps({k: v for k, v in cov.items() if k != 'samples'}))
+        if self.replay_sig is not None:
+            again = any(v[0] == self.replay_sig for v in self.violations)
+            log(f"[replay] signature {'FAILS AGAIN' if again else 'no longer fails'}")
+            return 1 if again else 0
         return 1 if self.violations else 0
 
 
